@@ -336,3 +336,96 @@ def chars(s):
         else:
             out.append("U%04X" % o)
     return out
+
+
+# ---------------------------------------------------------------------- parallel map with a hang watchdog (C20)
+def _guard_child(func, chunk, conn, src):
+    _worker_init(src)
+    try:
+        conn.send(("done", [func(x) for x in chunk]))
+    except Exception:
+        conn.send(("error", traceback.format_exc()))
+    finally:
+        conn.close()
+
+
+def guarded_map(func, items, *, chunk=100, procs=NCPU, chunk_timeout=120, item_timeout=20, on_hang=None, max_hung_chunks=2, on_skip=None):
+    """Ordered map; every chunk runs in a process of its own with a private pipe (no shared queue that a killed worker could
+    corrupt).  A chunk that does not finish within chunk_timeout is killed and its items are re-run one by one with item_timeout
+    up to the first one that hangs (on_hang(item) supplies its result, on_skip(item) that of items not run).  After
+    max_hung_chunks hanging chunks the rest of the space is skipped: the code under test hangs."""
+    items = list(items)
+    chunks = [items[i:i + chunk] for i in range(0, len(items), chunk)]
+    ctx = mp.get_context("fork")
+    src = os.environ.get("OCTAVE_SRC")
+    results, hung = {}, []
+    running = {}              # cid -> (process, conn, t0)
+    nxt = 0
+    while len(results) + len(hung) < len(chunks):
+        while nxt < len(chunks) and len(running) < procs and len(hung) < max_hung_chunks:
+            parent, child = ctx.Pipe(duplex=False)
+            p = ctx.Process(target=_guard_child, args=(func, chunks[nxt], child, src), daemon=True)
+            p.start()
+            child.close()
+            running[nxt] = (p, parent, time.time())
+            nxt += 1
+        if not running:
+            break
+        progressed = False
+        for cid, (p, conn, t0) in list(running.items()):
+            if conn.poll(0):
+                try:
+                    what, payload = conn.recv()
+                except EOFError:
+                    what, payload = "error", "worker died"
+                p.join(5)
+                del running[cid]
+                progressed = True
+                if what == "error":
+                    for q, _, _ in running.values():
+                        q.kill()
+                    raise Machinery("driver failed in a guarded worker:\n%s" % payload)
+                results[cid] = payload
+            elif time.time() - t0 > chunk_timeout:
+                p.kill()
+                p.join(5)
+                del running[cid]
+                hung.append(cid)
+                progressed = True
+            elif not p.is_alive() and not conn.poll(0.2):
+                del running[cid]
+                raise Machinery("guarded worker for chunk %d died without a result" % cid)
+        if not progressed:
+            time.sleep(0.05)
+    for cid in range(len(chunks)):
+        if cid not in results and cid not in hung:
+            if on_skip is None:
+                raise Machinery("guarded_map stopped after %d hanging chunks and no on_skip given" % len(hung))
+            results[cid] = [on_skip(x) for x in chunks[cid]]
+    for cid in hung:
+        out, found = [], False
+        for item in chunks[cid]:
+            if found:
+                out.append(on_skip(item) if on_skip else on_hang(item))
+                continue
+            parent, child = ctx.Pipe(duplex=False)
+            p = ctx.Process(target=_guard_child, args=(func, [item], child, src), daemon=True)
+            p.start()
+            child.close()
+            if parent.poll(item_timeout):
+                what, payload = parent.recv()
+                if what == "error":
+                    raise Machinery("driver failed on %r:\n%s" % (item, payload))
+                out.append(payload[0])
+            else:
+                p.kill()
+                if on_hang is None:
+                    raise Machinery("item did not finish within %ss: %r" % (item_timeout, item))
+                out.append(on_hang(item))
+                found = True
+            p.join(2)
+        results[cid] = out
+    flat = []
+    for cid in range(len(chunks)):
+        flat.extend(results[cid])
+    return flat
